@@ -1353,6 +1353,14 @@ func (r *rewriter) rewriteSync(body *ast.BlockStmt) {
 		if !ok {
 			return e
 		}
+		if name, ok := pkgSel(c.Fun, "signal"); ok {
+			switch name {
+			case "Notify", "Stop", "Ignore", "Reset", "NotifyContext":
+				nc := r.rtCall("Signal"+name, c.Args...)
+				nc.Ellipsis = c.Ellipsis
+				return nc
+			}
+		}
 		if name, ok := pkgSel(c.Fun, "time"); ok && name == "AfterFunc" && len(c.Args) == 2 {
 			return r.rtCall("AfterFunc", c.Args[0], c.Args[1], intLit(r.site("timer", c.Pos())))
 		}
